@@ -228,6 +228,14 @@ pub fn burst_jobs(thorough: bool, kinds: &[i64]) -> Vec<Job> {
     v
 }
 
+/// one scripted channel life cycle per capacity in {0..5, 8, 16, 17, 64, 65, 100} (sys_capscript.rs)
+pub fn capscript_jobs(thorough: bool) -> Vec<Job> {
+    vec![
+        job(Cfg::new("mpmc.capscript.fix", &[("x", 0)]), false, thorough),
+        job(Cfg::new("mpmc.capscript.grow", &[("x", 0)]), false, thorough),
+    ]
+}
+
 /// scripted bursts with N around 2^8 and 2^16 (sys_burst.rs, `Script`)
 pub fn script_jobs(thorough: bool, kinds: &[i64], chain: bool) -> Vec<Job> {
     let mut v = vec![];
@@ -338,6 +346,7 @@ pub fn plan(prop: &str, tier: &str) -> Vec<Job> {
         "C20" => ds_jobs(t),
         "C11" => {
             let mut v = mpmc_jobs(t, false);
+            v.extend(capscript_jobs(t));
             v.extend(oneshot_jobs(t));
             v.extend(state_jobs(t));
             v.extend(burst_jobs(t, &[2, 3]));
@@ -352,13 +361,22 @@ pub fn plan(prop: &str, tier: &str) -> Vec<Job> {
             v.push(job(Cfg::new("timer.sweep.std", &[("x", 0)]), false, t));
             v
         }
-        "C08" => mpmc_jobs(t, true),
+        "C08" => {
+            let mut v = mpmc_jobs(t, true);
+            v.extend(capscript_jobs(t));
+            v
+        }
         "C10" => {
             let mut v = mpmc_jobs(t, true);
             v.extend(script_jobs(t, &[2, 3], true));
+            v.extend(capscript_jobs(t));
             v
         }
-        "C09" => mpmc_jobs(t, false),
+        "C09" => {
+            let mut v = mpmc_jobs(t, false);
+            v.extend(capscript_jobs(t));
+            v
+        }
         "C14" => {
             let mut v = event_jobs(t);
             v.push(job(Cfg::new("event.local", &[("set", 0), ("k", if t { 7 } else { 6 })]), false, t));
